@@ -52,6 +52,11 @@ int32_t X_ilogb_f32(float x);
 int32_t X_ilogb_f64(double x);
 float  X_logb_f32(float x);
 double X_logb_f64(double x);
+/* std::min / std::max on references: the smaller / larger operand, the first one on ties */
+static inline uint32_t* X_min_pu32_pu32(uint32_t* a, uint32_t* b) { return *b < *a ? b : a; }
+static inline uint32_t* X_max_pu32_pu32(uint32_t* a, uint32_t* b) { return *a < *b ? b : a; }
+static inline uint64_t* X_min_pu64_pu64(uint64_t* a, uint64_t* b) { return *b < *a ? b : a; }
+static inline uint64_t* X_max_pu64_pu64(uint64_t* a, uint64_t* b) { return *a < *b ? b : a; }
 #define X_memcpy_pvoid_pvoid_sz(d, s, n) memcpy((d), (s), (n))
 static inline float __builtin_inff(void) { return avm_u2f(0x7f800000u); }
 static inline double __builtin_inf(void) { return avm_u2d(0x7ff0000000000000ull); }
